@@ -1,6 +1,7 @@
 /- C11 driver:
    `C11 run [chunk,maxBuf] [op,…]`      → ok [[ret,[[fid,outcome],…],cbs,view],…]   (Model, regexes = `stdR`)
    `C11 spec [[req,outcome],…] x<stream> [x<result>,…]` → ok T | ok [contract,i] | ok [conservation]   (Spec)
+   `C11 ready [[req,x<buffer>],…]`      → ok T | ok [stalled,i]   (Spec.ready: pending request already satisfied by the buffer)
    `C11 search rid x<bytes>`             → ok end|~   (the hand-written matchers)
 -/
 import TornadoModel.Base.Wire
@@ -124,6 +125,11 @@ def decPair (v : V) : Option (Spec.Req × Outcome) := do
   | [q, o] => pure (← decReq q, ← decOutcome o)
   | _ => none
 
+def decReqBuf (v : V) : Option (Spec.Req × Bytes) := do
+  match ← v.list? with
+  | [q, b] => pure (← decReq q, ← b.byteNats?)
+  | _ => none
+
 def handle (toks : List String) : String :=
   match toks with
   | ["run", cfg, ops] =>
@@ -141,6 +147,13 @@ def handle (toks : List String) : String :=
       | some i => ok [.list [.atom "contract", .int i]]
       | none => if Spec.conserved rs st then ok [.atom "T"] else ok [.list [.atom "conservation"]]
     | _, _, _ => err "bad-arg"
+  | ["ready", pairs] =>
+    match V.parse pairs >>= V.list? >>= (·.mapM decReqBuf) with
+    | some ps =>
+      match Spec.firstReady stdR ps 0 with
+      | some i => ok [.list [.atom "stalled", .int i]]
+      | none => ok [.atom "T"]
+    | none => err "bad-arg"
   | ["search", rid, b] =>
     match V.parse rid >>= V.nat?, V.parse b >>= V.byteNats? with
     | some r, some b => ok [V.ofOpt (fun n => V.int (Int.ofNat n)) (stdR r b)]
